@@ -32,8 +32,28 @@ Definition wC_opts : copts :=
   {| o_follow := false; o_always_replace := false; o_dir_contents := false; o_chown := None; o_utime := None; o_mode := None |}.
 (* Copy(srcRoot "/s", "?/?", dstRoot "/d", "/") with the matches p/h, q/h, r/g *)
 Definition wC_run : cst * (unit + N) :=
-  copy_top 16 ctx_init wC_opts [47;115] [63;47;63] [47;100] [47]
+  copy_top 16 ctx_init wC_opts (Some sel_all) [47;115] [63;47;63] [47;100] [47]
     (Some [[112;47;104]; [113;47;104]; [114;47;103]]) (cst_init wC).
+
+(* the witness of the deferred-parent escape: /o/d/a outside; /s/b/a the source; /d/b -> /o/d.
+   Copy(srcRoot "/s", "/", dstRoot "/d", "/") with IncludePatterns ["b/a"], AlwaysReplaceExistingDestPaths,
+   CopyDirContents: the parent b is deferred until b/a is selected; with createParentDirs before
+   removeTargetIfNeeded the conflict at /d/b is reported and nothing outside is removed. *)
+Definition wD : fs :=
+  let f := w_mkdir fs_init [47;111] in
+  let f := w_mkdir f [47;111;47;100] in
+  let f := w_write f [47;111;47;100;47;97] [79] in
+  let f := w_mkdir f [47;115] in
+  let f := w_mkdir f [47;100] in
+  let f := w_mkdir f [47;115;47;98] in
+  let f := w_write f [47;115;47;98;47;97] [120] in
+  w_symlink f [47;111;47;100] [47;100;47;98].
+Definition wD_opts : copts :=
+  {| o_follow := false; o_always_replace := true; o_dir_contents := true; o_chown := None; o_utime := None; o_mode := None |}.
+Definition wD_sel : selector :=
+  {| sl_inc := fun p _ => (bytes_eqb p [98;47;97], []); sl_exc := fun _ _ => (false, []) |}.
+Definition wD_run : cst * (unit + N) :=
+  copy_top 16 ctx_init wD_opts (Some wD_sel) [47;115] [47] [47;100] [47] None (cst_init wD).
 
 (* ---- a symlink met at a target name ---- *)
 Section DestLink.
